@@ -253,15 +253,15 @@ class Parameters:
         agroups = [
             'COO', 'HIS', 'CYS', 'TYR', 'SER', 'N+', 'LYS', 'AMD', 'ARG',
             'TRP', 'ROH', 'CG', 'C2N', 'N30', 'N31', 'N32', 'N33', 'NAR',
-            'OCO', 'NP1', 'OH', 'O3', 'CL', 'F', 'NAM', 'N1', 'O2', 'OP', 'SH']
+            'OCO', 'NP1', 'OH', 'O3', 'Cl', 'F', 'NAM', 'N1', 'O2', 'OP', 'SH']
         lgroups = [
             'CG', 'C2N', 'N30', 'N31', 'N32', 'N33', 'NAR', 'OCO', 'NP1',
-            'OH', 'O3', 'CL', 'F', 'NAM', 'N1', 'O2', 'OP', 'SH']
+            'OH', 'O3', 'Cl', 'F', 'NAM', 'N1', 'O2', 'OP', 'SH']
         map_ = {
             'CG': ['ARG'], 'C2N': ['ARG'], 'N30': ['N+', 'LYS'],
             'N31': ['N+', 'LYS'], 'N32': ['N+', 'LYS'], 'N33': ['N+', 'LYS'],
             'NAR': ['HIS'], 'OCO': ['COO'], 'OP': [], 'SH': ['CYS'],
-            'NP1': [], 'OH': ['ROH'], 'O3': [], 'CL': [], 'F': [],
+            'NP1': [], 'OH': ['ROH'], 'O3': [], 'Cl': [], 'F': [],
             'NAM': ['AMD'], 'N1': [], 'O2': []}
         for group1 in agroups:
             for group2 in lgroups:
@@ -343,10 +343,10 @@ O2
         # should be constants at the level of the module
         agroups = ['COO', 'HIS', 'CYS', 'TYR', 'SER', 'N+', 'LYS', 'AMD',
                    'ARG', 'TRP', 'ROH', 'CG', 'C2N', 'N30', 'N31', 'N32',
-                   'N33', 'NAR', 'OCO', 'NP1', 'OH', 'O3', 'CL', 'F', 'NAM',
+                   'N33', 'NAR', 'OCO', 'NP1', 'OH', 'O3', 'Cl', 'F', 'NAM',
                    'N1', 'O2', 'OP', 'SH']
         lgroups = ['CG', 'C2N', 'N30', 'N31', 'N32', 'N33', 'NAR', 'OCO',
-                   'NP1', 'OH', 'O3', 'CL', 'F', 'NAM', 'N1', 'O2', 'OP',
+                   'NP1', 'OH', 'O3', 'Cl', 'F', 'NAM', 'N1', 'O2', 'OP',
                    'SH']
         lines = [
             "",
@@ -402,7 +402,7 @@ O2
         # constants.
         agroups = ['COO', 'HIS', 'CYS', 'TYR', 'SER', 'N+', 'LYS', 'AMD',
                    'ARG', 'TRP', 'ROH', 'CG', 'C2N', 'N30', 'N31', 'N32',
-                   'N33', 'NAR', 'OCO', 'NP1', 'OH', 'O3', 'CL', 'F', 'NAM',
+                   'N33', 'NAR', 'OCO', 'NP1', 'OH', 'O3', 'Cl', 'F', 'NAM',
                    'N1', 'O2', 'OP', 'SH']
         lines = [
             "",
